@@ -7,6 +7,13 @@
    NOT a theorem (statistical clause, DESIGN section 3 C03 "partial"): "an informative low-cardinality feature
    outranks independent noise features of any cardinality at n >= 4000" — reported by the check only as a
    labelled supporting statistic. *)
+(* The heuristic NAME -> flag clause ("with cardinality correction on (heuristic MI-numba-randomized)") is deliberately not
+   restated here.  Its for-all-strings form is C05_flag_only_randomized (Props/C05.v, Pipeline/DispatchProofs.v) about the
+   GENERATED Gen/Dispatch.v; importing that file would make this property's build depend on the C05 translator accepting the
+   current shape of conduct_feature_ranking and on the shared coq/Gen directory not being rewritten by a concurrent run against
+   another tree — both observed to fail on harmless rewrites.  C03 holds the clause by its own run-time probe of
+   importance_estimator.numba_mi / conduct_feature_ranking (every documented name) plus a sound, advisory ast reader
+   (tools/props/c03.py, coverage.wiring_decided_by). *)
 From Coq Require Import Reals List ZArith.
 From Outrank Require Import Common.RSum MI.Model MI.Spec MI.Proofs.
 Import ListNotations.
